@@ -1697,6 +1697,10 @@ func unmarshalList(info TypeInfo, data []byte, value interface{}) error {
 			return err
 		}
 		data = data[p:]
+		if n < 0 || n > len(data)/p {
+			// every element takes at least its own length field
+			return unmarshalErrorf("unmarshal list: unexpected eof")
+		}
 		if k == reflect.Array {
 			if rv.Len() != n {
 				return unmarshalErrorf("unmarshal list: array with wrong size")
@@ -1817,8 +1821,12 @@ func unmarshalMap(info TypeInfo, data []byte, value interface{}) error {
 	if n < 0 {
 		return unmarshalErrorf("negative map size %d", n)
 	}
-	rv.Set(reflect.MakeMapWithSize(t, n))
 	data = data[p:]
+	if n > len(data)/(2*p) {
+		// every entry takes at least the length fields of its key and value
+		return unmarshalErrorf("unmarshal map: unexpected eof")
+	}
+	rv.Set(reflect.MakeMapWithSize(t, n))
 	for i := 0; i < n; i++ {
 		m, p, err := readCollectionSize(mapInfo, data)
 		if err != nil {
